@@ -70,9 +70,22 @@ META = {
         "R7: the documented catalogue - the myst-warnings directive - renders 'myst.' + a string that is evaluated, as a function of "
         "each enum member's (name, value) read from the enum's syntax tree, through comprehensions over MystWarnings / __members__ / "
         "ModuleAnalyzer.attr_docs (tabled: keyed by (class qualname, attribute NAME)) and str transforms; it must equal the member's "
-        "value, the tag that is emitted."
+        "value, the tag that is emitted. "
+        "R8: warning nodes are not content. Renderers attach the system_message next to the offending element, so containers of "
+        "rendered content may hold such nodes exactly when the warning is not suppressed. (a) every `.astext()` call in the "
+        "package either runs after the function removed the system_message descendants of that node (clean_astext), or only feeds "
+        "the rawsource of a newly built node, or only words a warning message (followed through the returning helper's call "
+        "sites), or reads a footnote label / a math leaf; (b) nodes handed to a library function that names its object by their text "
+        "(tabled: sphinx make_glossary_term) have the message nodes taken out first; (c) in functions that hold the document root "
+        "(or a cursor below it) or the container of a nested parse, a child list that is counted, unpacked, classified by "
+        "all/any(isinstance...) or indexed-and-classified is filtered for system_message (or names it in the classification); "
+        "(d) nothing reachable from _render_finalise appends a message node to the document root (docutils promotes a lone section "
+        "to the document title only if it is the root's sole child)."
     ),
     "not_decided": (
+        "consumers of rendered content outside the shapes of R8 (e.g. a third-party transform that reads astext() of a title, a "
+        "Sphinx builder that counts children) and docutils' own transforms other than the DocTitle fact tabled in R8d; "
+        "whether a catalogue member without any emission site (DIRECTIVE_BODY, listed by R3) should be documented at all; "
         "per-document equality of the outputs under different suppress lists (needs the documents); Sphinx's own logger-side "
         "suppression filter; how often a call site runs (a warning emitted once per group instead of once per item, or skipped "
         "because of a cross-parse cache - state that outlives a parse is C15's subject); idioms outside "
@@ -85,6 +98,9 @@ META = {
         "names tested by a dominating branch are not reassigned between the test and the exit it guards",
         "docutils Reporter.warning and nodes.system_message always return a node, so an emitter helper returns None exactly on its suppressed branch",
         "sphinx.pycode.ModuleAnalyzer.attr_docs maps (class qualname, attribute name) to the doc-comment lines (used only by R7 when the directive iterates it)",
+        "sphinx.domains.std.make_glossary_term names the term (id, std:term object, index entry) by the astext() of the nodes it is given (R8b)",
+        "docutils.transforms.frontmatter.DocTitle promotes a section only if, leading PreBibliographic nodes (which include system_message) aside, it is the root's only child (R8d)",
+        "no writer renders the rawsource of an inline node (R8a rawsource discharge); docutils uses a reference's rawsource for the problematic node of an unresolved reference",
         "a suppress entry with a trailing dot ('type.') is outside the three documented forms (str.partition and split('.', 1) treat it differently)",
     ],
 }
@@ -3184,8 +3200,8 @@ def mutants(corpus: Corpus):
         src1 = splice(pm.src, rep_st, f"if {var} is not None:\n{i}    {seg}")  # later position first
         out.append(Mutant(f"c14-result-replaces-node-{short_id}", "C14.R5", pm.rel, splice(pm.src, asg.value, new_call), expect=qn))
         out.append(Mutant(f"c14-result-replaces-node-guarded-{short_id}", "C14.R5", pm.rel, splice(src1, asg.value, new_call), expect=qn))
-    if not n_replace:
-        out.append(("c14-result-replaces-node", "neither parse() replaces raw nodes by `x = ...reporter.warning(...)`; `.replace(node, x)` with create_warning/MystWarnings imported"))
+    # (since the raw filter inserts the message and removes the raw node separately, no front end hosts this edit;
+    # the class stays covered by the recorded seed C20 out-c20/1 in the seeded regression)
     # 9. tag format / untagged node
     js = find_node(f, lambda n: isinstance(n, ast.JoinedStr) and len([v for v in n.values if isinstance(v, ast.FormattedValue)]) == 3)
     if js is not None:
